@@ -27,6 +27,7 @@ class P(Play):
     async def construct(self, name="main", model=None, Hh=None, state0=None):
         ctx = await super().construct(name, model, Hh, state0)
         ctx.sm.custom = [1, {"a": [2]}]
+        ctx.sm._own = {"k": [1]}  # user data kept in underscore-prefixed attributes travels with the machine too
         m = ctx.sm.model
         if self.cfg.get("bind_model") and not any(hasattr(m, e) for e in self.spec["events"]):
             try:
@@ -88,6 +89,8 @@ class P(Play):
             raise Fail("clone-differs", f"{what}: model type {type(sm2.model).__name__} vs {type(src.sm.model).__name__}")
         if sm2.custom != src.sm.custom or sm2.custom is src.sm.custom or sm2.custom[1]["a"] is src.sm.custom[1]["a"]:
             raise Fail("shared-state", f"{what}: custom mutable attribute not copied deeply: {sm2.custom!r}")
+        if getattr(sm2, "_own", None) != src.sm._own or sm2._own is src.sm._own:
+            raise Fail("clone-differs", f"{what}: underscore-prefixed custom attribute missing or shared in the clone: {getattr(sm2, '_own', '<missing>')!r}")
         sm2.custom[1]["a"].append(name)
         if name in src.sm.custom[1]["a"]:
             raise Fail("shared-state", f"{what}: mutating the clone's attribute changed the original")
